@@ -472,7 +472,8 @@ pub fn run_c09(tier: &str) -> i32 {
 // ====================================================================================== C10
 
 /// The child: `wbmc-core persist-child <dir> <side-file> <script>`; script = comma separated
-/// steps: `load`, `s<i>` (bring the store into state i), `r<i>` (the same with the CAS entry starting
+/// steps: `boot` (start-up with the periodic flush's tick landing before the load has finished: load,
+/// then that flush of the loaded state), `load`, `s<i>` (bring the store into state i), `r<i>` (the same with the CAS entry starting
 /// over: the store becomes byte for byte what state i was in a fresh history), `flush`, `pflush`.
 pub fn child_main(args: &[String]) -> i32 {
     let dir = PathBuf::from(&args[0]);
@@ -489,7 +490,17 @@ pub fn child_main(args: &[String]) -> i32 {
             writeln!(f, "{v}").ok();
         };
         for step in script {
-            if step == "load" {
+            if step == "boot" {
+                flush_no += 1;
+                let n = flush_no;
+                wb = boot_flush(&cfg, &|w: &Worterbuch| {
+                    let content = user_part(&content_of(w));
+                    note(json!({"loaded": content}));
+                    note(json!({"flush": n, "phase": "begin", "expected": content}));
+                })
+                .await;
+                note(json!({"flush": flush_no, "phase": "end"}));
+            } else if step == "load" {
                 wb = match worterbuch::verif::json::load(&cfg).await {
                     Ok(w) => w,
                     Err(_) => Worterbuch::with_config(cfg.clone()),
@@ -545,6 +556,17 @@ pub fn child_main(args: &[String]) -> i32 {
 /// One tick of the real periodic flush task (`json::periodic`: export through the API, then
 /// write), with the core owned by a task that serves the API meanwhile.
 async fn periodic_flush(wb: Worterbuch, cfg: &Config) -> Worterbuch {
+    periodic_flush_impl(Some(wb), cfg, &|_| {}).await
+}
+
+/// The start-up order of `persistence::restore` with the timer landing first: the periodic flush
+/// task exists before the store is loaded; its tick fires while the load is still outstanding, the
+/// flush waits for its export until the core serves the API, i.e. until after the load.
+async fn boot_flush(cfg: &Config, on_loaded: &dyn Fn(&Worterbuch)) -> Worterbuch {
+    periodic_flush_impl(None, cfg, on_loaded).await
+}
+
+async fn periodic_flush_impl(wb: Option<Worterbuch>, cfg: &Config, on_loaded: &dyn Fn(&Worterbuch)) -> Worterbuch {
     use tokio::sync::mpsc;
     let (tx, mut rx) = mpsc::channel::<worterbuch::verif::WbFunction>(16);
     let mut pcfg = cfg.clone();
@@ -569,6 +591,28 @@ async fn periodic_flush(wb: Worterbuch, cfg: &Config) -> Worterbuch {
         }
         tokio::task::yield_now().await;
     };
+    let periodic = tokio::spawn(worterbuch::verif::json::periodic(api.clone(), pcfg, subsys.clone()));
+    for _ in 0..20 {
+        tokio::task::yield_now().await;
+    }
+    // the tick fires; the flush asks for its export, which nobody answers yet
+    tokio::time::advance(std::time::Duration::from_millis(1050)).await;
+    for _ in 0..20 {
+        tokio::task::yield_now().await;
+    }
+    let wb = match wb {
+        Some(w) => w,
+        None => {
+            let w = match worterbuch::verif::json::load(cfg).await {
+                Ok(w) => w,
+                Err(_) => Worterbuch::with_config(cfg.clone()),
+            };
+            on_loaded(&w);
+            w
+        }
+    };
+    let toggle = std::path::PathBuf::from(&cfg.data_dir).join(".toggle");
+    let before = toggle.exists();
     let core = tokio::spawn(async move {
         let mut wb = wb;
         while let Some(f) = rx.recv().await {
@@ -576,13 +620,6 @@ async fn periodic_flush(wb: Worterbuch, cfg: &Config) -> Worterbuch {
         }
         wb
     });
-    let toggle = std::path::PathBuf::from(&cfg.data_dir).join(".toggle");
-    let before = toggle.exists();
-    let periodic = tokio::spawn(worterbuch::verif::json::periodic(api.clone(), pcfg, subsys.clone()));
-    for _ in 0..20 {
-        tokio::task::yield_now().await;
-    }
-    tokio::time::advance(std::time::Duration::from_millis(1050)).await;
     // the file operations run on the blocking pool: wait (in real time) until the slot selector
     // has flipped, which is the flush's last step before the time stamp
     let mut n = 0;
@@ -794,7 +831,7 @@ pub fn run_c10(tier: &str) -> i32 {
     // two second runs: new states; and a return to the state that the slot written next held before
     // (a flush whose content equals what an earlier flush left in the same slot)
     let scripts2 = [
-        format!("load,s{},pflush,s{},flush", flushes + 1, flushes + 2),
+        format!("boot,s{},flush", flushes + 1),
         if tier == "thorough" {
             format!("load,r{},flush,s{},pflush", flushes - 2, flushes + 2)
         } else {
@@ -867,7 +904,7 @@ pub fn run_c10(tier: &str) -> i32 {
     std::fs::remove_dir_all(&root).ok();
     ev.set("evaluations", json!(evaluations));
     ev.set("distinct_nontrivial", json!(distinct_dirs.len() + l2_dirs.len()));
-    ev.set("rule", json!(format!("history of {flushes} flushes with pairwise distinct stores and registrations, killed before each of its {n1} mutating file-system calls (+ torn variants 0 and 1/2 of every *.tmp write); then from each distinct directory state two second runs (load, mutate, flush, mutate, flush - once into new states, once back to the state the slot written next held before) checked on completion and killed before each of their calls; after every crash the real load() runs on a copy of the directory; distinct_nontrivial = number of distinct directory states left behind (file set + contents)")));
+    ev.set("rule", json!(format!("history of {flushes} flushes with pairwise distinct stores and registrations, killed before each of its {n1} mutating file-system calls (+ torn variants 0 and 1/2 of every *.tmp write); then from each distinct directory state two second runs (start-up in the server's order with the first periodic tick landing during the load - that flush, a new state, a flush; and load, back to the state the slot written next held before, flush) checked on completion and killed before each of their calls; after every crash the real load() runs on a copy of the directory; distinct_nontrivial = number of distinct directory states left behind (file set + contents)")));
     ev.set("crash_points_level1", json!(n1));
     ev.set("level1_runs", json!(jobs.len()));
     ev.set("level1_distinct_directory_states", json!(distinct_dirs.len()));
